@@ -1,6 +1,7 @@
 import Panacea.Driver.CompKey
 import Panacea.Driver.Aol
 import Panacea.Driver.Did
+import Panacea.Driver.Validate
 /-! Model driver: one operation per input line, one answer per output line. -/
 open Panacea Panacea.Driver
 
@@ -31,6 +32,8 @@ def stepLine (st : DState) (line : String) : DState × String :=
       match aolStep st.addrs st.aol toks with
       | some (d, ans) => ({ st with aol := d }, ans)
       | none => (st, "bad-op")
+    else if tok.startsWith "vb." then
+      (st, (validateStep st.addrs toks).getD "bad-op")
     else if tok.startsWith "did." || tok.startsWith "mon.c11." then
       match didStep st.addrs st.sigs st.did toks with
       | some (d, ans) => ({ st with did := d }, ans)
